@@ -241,7 +241,6 @@ def populate_abbrev(ctx, sk):
     sk.module('read::abbrev', """use std::collections::btree_map;
 use std::vec::Vec;
 use core::convert::TryFrom;
-use core::ops::Deref;
 use crate::common::{DebugAbbrevOffset, Encoding, SectionId};
 use crate::constants;
 use crate::read::{Error, Reader, ReaderOffset, Result};
@@ -300,12 +299,16 @@ pub trait DerefImpl {
     spec fn deref_pre(&self) -> bool;
     fn deref(&self) -> &Self::Target requires self.deref_pre();
 }
-impl Deref for Attributes {
-    type Target = [AttributeSpecification];
-    #[verifier::external_body]
-    fn deref(&self) -> (res: &[AttributeSpecification])
-        ensures self.inv() ==> res@ == self.view()
-    { <Self as DerefImpl>::deref(self) }
+mod deref_stub {
+    use vstd::prelude::*;
+    use super::{Attributes, AttributeSpecification};
+    impl core::ops::Deref for Attributes {
+        type Target = [AttributeSpecification];
+        #[verifier::external_body]
+        fn deref(&self) -> (res: &[AttributeSpecification])
+            ensures self.inv() ==> res@ == self.view()
+        { <Self as super::DerefImpl>::deref(self) }
+    }
 }
 """, label='DerefImpl')
     atd = ab.item(r'^impl Deref for Attributes \{', label='Deref for Attributes')
@@ -341,8 +344,9 @@ impl Deref for Attributes {
         f'[C02:abbrev-children] res is Err <==> {O}.len < 1 || {O}.at(0) > 1', FRAME, PROGRESS])
     abi.splice('parse_attributes', ret='res', ensures=[
         f'[C02:abbrev-attrs] res matches Ok(a) ==> a.inv() && a.spv() == aspecs({O}, 0) && adv({O}, {F}, aspecs_size({O}, 0))', FRAME, PROGRESS],
-        loops={0: f'invariant attrs.inv(), within({O}, input.rv()), aspecs({O}, 0) == attrs.spv() + aspecs({O}, input.rv().start - {O}.start), '
-                  f'aspecs_size({O}, 0) == (input.rv().start - {O}.start) + aspecs_size({O}, input.rv().start - {O}.start),\n decreases input.rv().len'})
+        loops={0: f'invariant_except_break attrs.inv(), within({O}, input.rv()), aspecs({O}, 0) == attrs.spv() + aspecs({O}, input.rv().start - {O}.start), '
+                  f'aspecs_size({O}, 0) == (input.rv().start - {O}.start) + aspecs_size({O}, input.rv().start - {O}.start),\n'
+                  f' ensures attrs.inv(), attrs.spv() == aspecs({O}, 0), adv({O}, input.rv(), aspecs_size({O}, 0)),\n decreases input.rv().len'})
     P1 = f'{O}.leb_len(0) as int'
     P2 = f'({O}.leb_len(0) + {O}.leb_len({O}.leb_len(0) as int)) as int'
     abi.splice('parse', ret='res', ensures=[
